@@ -17,12 +17,12 @@ fn main() {
         let variants = [sh.roots.clone(), dynamize(&sh.roots), add_extra(&sh.roots, sh.site, "")];
         for (v, roots) in variants.iter().enumerate() {
             o.push_str(&format!(
-                "#[allow(unused)]\npub fn t_{k}_{v}(s: &[String], b: &[bool]) -> String {{\n    let s: &'static [String] = Box::leak(s.to_vec().into_boxed_slice());\n    let b: &'static [bool] = Box::leak(b.to_vec().into_boxed_slice());\n    view! {{ {} }}.to_html()\n}}\n",
+                "#[allow(unused)]\npub fn t_{k}_{v}(s: &[String], b: &[bool]) -> [String; 3] {{\n    let s: &'static [String] = Box::leak(s.to_vec().into_boxed_slice());\n    let b: &'static [bool] = Box::leak(b.to_vec().into_boxed_slice());\n    let mk = move || view! {{ {} }};\n    [mk().to_html(), collect(mk().to_html_stream_in_order()), collect(mk().to_html_stream_out_of_order())]\n}}\n",
                 rust_src(roots)
             ));
         }
     }
-    o.push_str("pub type TFn = fn(&[String], &[bool]) -> String;\npub static TEMPLATES: &[[TFn; 3]] = &[\n");
+    o.push_str("pub type TFn = fn(&[String], &[bool]) -> [String; 3];\npub static TEMPLATES: &[[TFn; 3]] = &[\n");
     for k in 0..shapes.len() {
         o.push_str(&format!("    [t_{k}_0, t_{k}_1, t_{k}_2],\n"));
     }
